@@ -90,12 +90,18 @@ Proof. apply (append_bits_src [] val len). Qed.
    hypotheses; [Hplaced]: after add_codewords of THIS run every module has a value, i.e. the final message fills the
    encoding region exactly (ISO capacity arithmetic; assumed here, not proved -- without it the two sides differ on
    modules that stay unset: Python xors the placeholder 2 with the mask, the model leaves the cell absent) *)
-Theorem src_encode_is_model :
+(* [src_encode_is_model_at]: the hypothesis about evaluate_mask is only needed for the size of THIS symbol
+   (calc_matrix_size version) -- the form Tie/TieEncodeFinal.v instantiates with the translated evaluate_mask, whose
+   bridge theorem holds for the 44 symbol sizes.  [src_encode_is_model] below is the earlier statement (hypothesis for
+   every size), now a corollary. *)
+Theorem src_encode_is_model_at :
   forall (ext_eci : option String.string -> res Z) (ext_eval : list (list Z) -> Z -> Z -> res Z)
          (segs : list segment) (error : option Z) (version : Z) (mask : option Z) (eci boost : bool) (sa : option sa_info),
   -3 <= version <= 40 ->
   (forall s, In s segs -> ext_eci (option_map e_name (s_enc s)) = eci_number (s_enc s)) ->
-  (forall size mk, full size mk -> ext_eval (to_rows size mk) size size = Ok (Matrix.evaluate_mask size (rows_of size mk))) ->
+  (forall mk, full (Encode.calc_matrix_size version) mk ->
+     ext_eval (to_rows (Encode.calc_matrix_size version) mk) (Encode.calc_matrix_size version) (Encode.calc_matrix_size version)
+     = Ok (Matrix.evaluate_mask (Encode.calc_matrix_size version) (rows_of (Encode.calc_matrix_size version) mk))) ->
   match mask with Some k => 0 <= k < (if version <? 1 then 4 else 8) | None => True end ->
   (forall error0 buff final m1 m2 m3,
      data_stream segs error0 version eci sa = Ok buff ->
@@ -181,7 +187,7 @@ Proof.
     unfold capacity. rewrite Hrow. cbn [bind]. rewrite Hcap. cbn [bind]. rewrite Hb1. reflexivity. }
   pose proof (Hplaced error0 _ final m1 m2 m3 Hstream Hfinal eq_refl Hm2 Hm3) as Hfull3.
   (* mask *)
-  rewrite (src_find_and_apply_best_mask_is_model ext_eval size m3 mask Hin Hfull3 (Heval size))
+  rewrite (src_find_and_apply_best_mask_is_model ext_eval size m3 mask Hin Hfull3 Heval)
     by (rewrite Hmicro; exact Hmask).
   destruct (Matrix.find_and_apply_best_mask size m3 mask) as [[k m4]|e] eqn:Hm4; cbn [bind fst snd]; [|reflexivity].
   (* format and version information *)
@@ -197,4 +203,29 @@ Proof.
   destruct (Matrix.add_version_info size version m5) as [m6|e]; reflexivity.
 Qed.
 
+Theorem src_encode_is_model :
+  forall (ext_eci : option String.string -> res Z) (ext_eval : list (list Z) -> Z -> Z -> res Z)
+         (segs : list segment) (error : option Z) (version : Z) (mask : option Z) (eci boost : bool) (sa : option sa_info),
+  -3 <= version <= 40 ->
+  (forall s, In s segs -> ext_eci (option_map e_name (s_enc s)) = eci_number (s_enc s)) ->
+  (forall size mk, full size mk -> ext_eval (to_rows size mk) size size = Ok (Matrix.evaluate_mask size (rows_of size mk))) ->
+  match mask with Some k => 0 <= k < (if version <? 1 then 4 else 8) | None => True end ->
+  (forall error0 buff final m1 m2 m3,
+     data_stream segs error0 version eci sa = Ok buff ->
+     Stream.make_final_message version error0 buff = Ok final ->
+     Matrix.add_finder_patterns (Encode.calc_matrix_size version) (Matrix.make_matrix (Encode.calc_matrix_size version) true true) = Ok m1 ->
+     Matrix.add_alignment_patterns (Encode.calc_matrix_size version) m1 = Ok m2 ->
+     Matrix.add_codewords (Encode.calc_matrix_size version) version m2 final = Ok m3 ->
+     full (Encode.calc_matrix_size version) m3) ->
+  src__encode ext_eci ext_eval (to_py_segs segs) error version mask eci boost (option_map sa_list sa)
+  = do r <- encode_core_mat segs error version mask eci boost sa;
+    let '(m6, error', mask') := r in
+    Ok (to_rows (Encode.calc_matrix_size version) m6, version, error', mask', to_py_segs segs).
+Proof.
+  intros ext_eci ext_eval segs error version mask eci boost sa Hv Heci Heval Hmask Hplaced.
+  apply src_encode_is_model_at; try assumption.
+  intros mk Hmk. apply Heval. exact Hmk.
+Qed.
+
+Print Assumptions src_encode_is_model_at.
 Print Assumptions src_encode_is_model.
